@@ -6,6 +6,26 @@ SPLIT = {("Wire", "set:pins"), ("Definition", "add_port"), ("Definition", "creat
          ("Port", "create_pins"), ("Definition", "create_child")}
 
 
+# shape-concrete extra universes: containment fixed (cube), every link / reference / data value symbolic.
+# They reach configurations the fully symbolic profiles are too small for (two ports per definition).
+_TWO_PORT = dict(live=dict(Netlist=1, Library=1, Definition=2, Port=4, Cable=1, Wire=1, Instance=1,
+                           InnerPin=3, OuterPin=2), K=2, seq=1)
+
+
+def _two_port(p0, p1, p2, p3):
+    return {"Netlist/0/_libraries": [0], "Library/0/_definitions": [0, 1],
+            "Definition/0/_ports": [0, 1], "Definition/1/_ports": [2, 3],
+            "Definition/0/_cables": [0], "Cable/0/_wires": [0],
+            "Port/0/_pins": p0, "Port/1/_pins": p1, "Port/2/_pins": p2, "Port/3/_pins": p3}
+
+
+SHAPED = [
+    ("Instance", "set:reference", "two-ports:second-grows", _TWO_PORT, _two_port([0], [], [1], [2])),
+    ("Instance", "set:reference", "two-ports:second-shrinks", _TWO_PORT, _two_port([0], [1], [2], [])),
+    ("Instance", "set:reference", "two-ports:equal-widths", _TWO_PORT, _two_port([0], [], [1], [])),
+]
+
+
 def step_jobs(prop, tier, want, listeners=("none",), only_with_refusal=False, validation=True):
     import os
     out = []
@@ -44,6 +64,14 @@ def step_jobs(prop, tier, want, listeners=("none",), only_with_refusal=False, va
                                               tier=tier, listeners=ls, want=list(want), name_prefix=prop,
                                               cube=cube, timeout_ms=tmo * 1000,
                                               part=[part, nparts] if nparts > 1 else None)))
+    for (cls, meth, sname, prof, shape) in SHAPED:
+        m = [x for x in M.MUTATORS if (x[0], x[1]) == (cls, meth)][0]
+        for ls in listeners:
+            out.append(dict(name="%s/%s.%s[%s]{shape=%s}" % (prop, cls, meth, ls, sname), engine="E1/symheap",
+                            module="vf.e1.jobs", func="step_job", timeout=tmo * 4,
+                            args=dict(prop=prop, cls=cls, method=meth, doms=m[2], kwdoms=m[3] if len(m) > 3 else {},
+                                      tier=tier, listeners=ls, want=list(want), name_prefix=prop, cube=None,
+                                      timeout_ms=tmo * 1000, shape=shape, shape_name=sname, profile=prof)))
     return out
 
 
